@@ -15,7 +15,7 @@ for modname in mods:
     for q, c in cons.items():
         if q in nodes and not c.trusted:
             o, _ = eng.generate(q, nodes[q]); obls += o
-    if eng.lemmas:
+    if eng.lemmas or eng.inductive:
         obls += eng.generate_lemmas(modname, eng.lemmas)
     main = [o for o in obls if o.expect == 'proved']
     res = solve.discharge(main, timeout_ms=30000)
